@@ -471,7 +471,7 @@ impl World {
             self.last_fail = "native sender lacks funds".to_string();
             return false;
         }
-        let hook = staking::helpers::derive_intermediate_sender(channel, native_sender, prefix).unwrap_or_default();
+        let hook = crate::gen::hook_account(channel, native_sender, prefix);
         self.events.push(format!("w_hook {} {} {} {}", self.now_ns, hs(native_sender), amount, variant));
         // the voucher is minted to the intermediate account, which then pays the contract
         self.chain.native.insert((native_sender.to_string(), native_denom_key.to_string()), nb - amount);
